@@ -98,6 +98,8 @@ def ops_for(n, cap, cls_name, tier):
     out.append(("reverse",))
     out.append(("sort",))
     out.append(("sort_rev",))
+    out.append(("sort_key",))
+    out.append(("sort_key_raises",))
     out.append(("clear",))
     out.append(("imul", 0))
     out.append(("imul", 1))
@@ -114,6 +116,10 @@ def ops_for(n, cap, cls_name, tier):
         for i in range(-1, n + 1):
             out.append(("set_focus", i))
     return out
+
+
+def _bad_key(t):
+    raise ValueError("key function failed")
 
 
 def perform(lst, op, st: State, is_ref: bool, fresh, target):
@@ -144,6 +150,10 @@ def perform(lst, op, st: State, is_ref: bool, fresh, target):
         lst.sort()
     elif k == "sort_rev":
         lst.sort(reverse=True)
+    elif k == "sort_key":
+        lst.sort(key=lambda t: (t.n % 2, -t.n))
+    elif k == "sort_key_raises":
+        lst.sort(key=_bad_key)
     elif k == "clear":
         lst.clear()
     elif k == "imul":
@@ -369,7 +379,7 @@ def run(tier, R):
         "distinct_nontrivial": len(R.ctx.sets.get("nontrivial", ())),
         "rule": "BFS to a fixed point over (class, rank-compressed contents, focus) with list length <= "
         f"{cap}; every op of the alphabet (index/slice get-set-del with start,stop in None|-(n+1)..n+1, step in "
-        "None,1,2,3,-1,-2, replacement lengths 0..2, insert/append/extend/pop/remove/reverse/sort/+=/*=/clear, "
+        "None,1,2,3,-1,-2, replacement lengths 0..2, insert/append/extend/pop/remove/reverse/sort (plain, reversed, with a key, with a key function that raises)/+=/*=/clear, "
         "focus assignment valid+invalid) applied in every state; non-trivial = distinct (state, op) pairs that "
         "changed the contents",
         "exhaustive": bool(res["closed"]),
